@@ -45,6 +45,17 @@ structure Result where
   reads : List Nat
 deriving Repr, DecidableEq
 
+/-- `zstd_disabled = os.environ.get("VGI_HTTP_DISABLE_ZSTD") == "1"` (variable name and value as extracted) -/
+def zstdDisabled (env : Option (List Char)) : Bool := env == some Gen.ReqBody.disableZstdValue.toList
+
+/-- `make_wsgi_app` + `_CompressionMiddleware.__init__`: the request codings the server decodes (`self._decode`), from the
+runtime codecs, the environment switch and `compression_level`.  As extracted (`decodeWiring`), `compression_level` plays
+no part: response compression off does not mean request decoding changes. -/
+def mkDecode (runtime : List Enc) (env : Option (List Char)) (_compressionLevel : Option Int) : List Enc :=
+  let decodable := (Gen.ReqBody.decodable.filterMap Enc.ofName).filter
+    (fun e => runtime.contains e && !(zstdDisabled env && e == .zstd))
+  decodable.filter (fun e => runtime.contains e)                       -- `__init__`: `enc for enc in decodable if enc in runtime`
+
 /-- everything `req.bounded_stream` can ever yield -/
 def bounded (r : Req) : Bytes := r.wire.take (r.contentLength.getD 0)
 
